@@ -1,6 +1,6 @@
 """Slot level correspondence: the hand-written Coq slot models against the real element-moving helpers.
 
-coq/Slots.v, Erase.v, Alias.v and Throw.v model the helper functions of include/amc/vectorcommon.hpp (namespace amc::vec)
+coq/Slots.v, Erase.v, Alias.v, Throw.v and EmplaceGrow.v model the helper functions of include/amc/vectorcommon.hpp (namespace amc::vec)
 on a memory of slots `Out | Raw | Live v | Moved`.  This module ties them to the code by an executable comparison:
 
   * harness/cpp/slotdrv.cpp (ASan + UBSan build, from /repo's working tree) calls the real helpers on a raw buffer of the
@@ -24,7 +24,7 @@ from . import common as C
 from . import coqbuild
 
 WORK = os.path.join(C.CACHE, "slotcorr")
-VOS = ["Slots.vo", "Erase.vo", "Alias.vo", "Throw.vo"]
+VOS = ["Slots.vo", "Erase.vo", "Alias.vo", "Throw.vo", "EmplaceGrow.vo"]
 NEW_VALUE = 99          # slotdrv.cpp: kNewValue
 FIRST_VALUE = 10        # slotdrv.cpp: kFirstValue
 MAX_REPORTED = 8
@@ -57,8 +57,33 @@ CASES = {
                      "Throw.destroy_n", "Throw.tick"]),
     "assign_shrink": (("size", "cap", "count"), True, "KAssignShrink", "Throw.fill_n",
                       ["Throw.copy_assign", "Throw.destroy_n", "Throw.destroy", "Throw.tick"]),
+    # coq/EmplaceGrow.v: the paths that build the new element in a temporary first
+    "insert_n_th": (("size", "cap", "pos"), True, "KInsertN", "EmplaceGrow.insert_n",
+                    ["EmplaceGrow.shift_right1", "EmplaceGrow.shift_left", "EmplaceGrow.mv_construct", "EmplaceGrow.mv_assign",
+                     "EmplaceGrow.mv_backward", "EmplaceGrow.mv_forward", "Throw.copy_assign_alive", "Throw.copy_construct",
+                     "Throw.destroy", "Throw.tick"]),
+    "shift_left": (("size", "cap", "pos"), False, "KShiftLeft", "EmplaceGrow.shift_left",
+                   ["EmplaceGrow.mv_assign", "EmplaceGrow.mv_forward", "Throw.destroy"]),
+    "emplace_n_th": (("size", "cap", "pos", "src", "rv"), True, "KEmplaceN", "EmplaceGrow.emplace_n",
+                     ["EmplaceGrow.construct_arg", "EmplaceGrow.shift_relocate", "EmplaceGrow.shift_right1",
+                      "EmplaceGrow.relocate_after_shift", "EmplaceGrow.mv_construct", "EmplaceGrow.mv_assign", "EmplaceGrow.mv_backward",
+                      "Throw.copy_construct", "Throw.destroy", "Throw.tick"]),
+    "emplace_grow_th": (("size", "pos", "src", "rv"), True, "KEmplaceGrow", "EmplaceGrow.emplace_grow",
+                        ["EmplaceGrow.construct_arg", "EmplaceGrow.grow", "EmplaceGrow.next_cap", "EmplaceGrow.fill_range",
+                         "EmplaceGrow.mv_uninit_n", "EmplaceGrow.catch_grow", "EmplaceGrow.give_back", "EmplaceGrow.relocate_at",
+                         "EmplaceGrow.shift_relocate", "EmplaceGrow.shift_right1", "EmplaceGrow.relocate_after_shift",
+                         "EmplaceGrow.mv_construct", "EmplaceGrow.mv_assign", "EmplaceGrow.mv_backward", "Throw.copy_construct",
+                         "Throw.destroy_n", "Throw.destroy", "Throw.tick"]),
+    "emplace_back_grow_th": (("size", "src", "rv"), True, "KEmplaceBackGrow", "EmplaceGrow.emplace_back_grow",
+                             ["EmplaceGrow.construct_arg", "EmplaceGrow.grow", "EmplaceGrow.next_cap", "EmplaceGrow.fill_range",
+                              "EmplaceGrow.mv_uninit_n", "EmplaceGrow.catch_grow", "EmplaceGrow.give_back", "EmplaceGrow.relocate_at",
+                              "EmplaceGrow.mv_construct", "EmplaceGrow.mv_assign", "Throw.copy_construct", "Throw.destroy_n",
+                              "Throw.destroy", "Throw.tick"]),
 }
-HAS_NEWSIZE = ("insert_cnt", "resize_grow")    # the model computes the size the member function sets
+# the model computes the size the member function sets
+HAS_NEWSIZE = ("insert_cnt", "resize_grow", "emplace_n_th", "emplace_grow_th", "emplace_back_grow_th")
+# families whose state is made of segments `a/b/...` (slotdrv.cpp, SLOTDRV.md): block/argument/e  or  old block/argument/e/new block
+COMPOSITE = {"emplace_n_th": 3, "emplace_grow_th": 4, "emplace_back_grow_th": 4}
 
 LINE = re.compile(r"^CASE (\S+) ((?:\w+=\d+ )+)k=(-|\d+) \| pre=(\S+) \| post=(\S+) \| threw=([01]) \| newsize=(-|\d+) \| "
                   r"errs=(\d+) live=(-?\d+)(?: msg=(.*))?$")
@@ -66,7 +91,7 @@ HEAD = re.compile(r"^CASE (\S+) ((?:\w+=\d+ )+)k=(-|\d+) \|")
 
 COQ_PRELUDE = r"""(* generated by lib/slotcorr.py: evaluates the slot models on the cases the C++ driver ran *)
 From Coq Require Import ZArith List Arith Bool.
-From Amc Require Import Slots Erase Alias Throw.
+From Amc Require Import Slots Erase Alias Throw EmplaceGrow.
 Import ListNotations.
 Set Printing Depth 1000000.
 Set Printing Width 200.
@@ -110,6 +135,19 @@ Definition showT (cap : nat) (o : Throw.out) (nsDone nsThrew : Z) : list Z :=
   | Throw.Threw m => 0%Z :: nsThrew :: 1%Z :: map (fun i => codeT (m i)) (seq 0 cap)
   end.
 
+(* as showT, for an explicit list of slot indices (composite states: block(s), argument, temporary) *)
+Definition showE (idx : list nat) (o : Throw.out) (nsDone nsThrew : Z) : list Z :=
+  match o with
+  | Throw.Err e => [errT e; NOSIZE; 0%Z]
+  | Throw.Done m _ => 0%Z :: nsDone :: 0%Z :: map (fun i => codeT (m i)) idx
+  | Throw.Threw m => 0%Z :: nsThrew :: 1%Z :: map (fun i => codeT (m i)) idx
+  end.
+(* what shift_right (pos, size - pos) leaves behind (size - pos >= 1), written down directly *)
+Definition shifted1T (size cap pos : nat) : Throw.mem :=
+  fun i => if i <? pos then Throw.Live (Z.of_nat (10 + i)) else if i =? pos then Throw.Moved
+           else if i <=? size then Throw.Live (Z.of_nat (10 + (i - 1))) else if i <? cap then Throw.Raw else Throw.Out.
+Definition kind (rv : nat) : EmplaceGrow.argkind := match rv with 0 => EmplaceGrow.Lvalue | _ => EmplaceGrow.Rvalue end.
+
 Inductive case :=
 | KInsertCnt (size cap pos count : nat)
 | KShiftRightCnt (size cap pos count : nat)
@@ -120,7 +158,12 @@ Inductive case :=
 | KInsertCntTh (size cap pos count : nat) (th : option nat)
 | KResizeGrow (size cap count : nat) (th : option nat)
 | KAssignGrow (size cap count : nat) (th : option nat)
-| KAssignShrink (size cap count : nat) (th : option nat).
+| KAssignShrink (size cap count : nat) (th : option nat)
+| KInsertN (size cap pos : nat) (th : option nat)
+| KShiftLeft (size cap pos : nat)
+| KEmplaceN (size cap pos src rv : nat) (th : option nat)
+| KEmplaceGrow (size pos src rv : nat) (th : option nat)
+| KEmplaceBackGrow (size src rv : nat) (th : option nat).
 
 Definition run (c : case) : list Z :=
   match c with
@@ -145,13 +188,31 @@ Definition run (c : case) : list Z :=
                  | Throw.Done m1 th1 => match Throw.destroy_n m1 count (size - count) with
                                         | inl m2 => Throw.Done m2 th1 | inr e => Throw.Err e end
                  | o => o end) NOSIZE NOSIZE
+  | KInsertN size cap pos th => showT cap (EmplaceGrow.insert_n (initT size cap) th pos (size - pos) v) NOSIZE NOSIZE
+  | KShiftLeft size cap pos =>
+      showT cap (match EmplaceGrow.shift_left (shifted1T size cap pos) (pos + 1) (size - pos) with
+                 | inl m => Throw.Done m None | inr e => Throw.Err e end) NOSIZE NOSIZE
+  (* layout EmplaceGrow.init_lay: block [0, cap), e = cap + 1, external argument = cap + 2 (src < size: an own element) *)
+  | KEmplaceN size cap pos src rv th =>
+      showE (seq 0 cap ++ [src; cap + 1])
+            (EmplaceGrow.emplace_n (EmplaceGrow.init_lay size cap v) th pos (size - pos) (cap + 1) src (kind rv))
+            (Z.of_nat (size + 1)) (Z.of_nat size)
+  (* full vector: old block [0, size), e = size + 1, external argument = size + 2, new block [size + 4, size + 4 + next_cap size) *)
+  | KEmplaceGrow size pos src rv th =>
+      showE (seq 0 size ++ [src; size + 1] ++ seq (size + 4) (EmplaceGrow.next_cap size))
+            (EmplaceGrow.emplace_grow true (EmplaceGrow.init_lay size size v) th size pos (size + 1) src (kind rv) (size + 4))
+            (Z.of_nat (size + 1)) (Z.of_nat size)
+  | KEmplaceBackGrow size src rv th =>
+      showE (seq 0 size ++ [src; size + 1] ++ seq (size + 4) (EmplaceGrow.next_cap size))
+            (EmplaceGrow.emplace_back_grow true (EmplaceGrow.init_lay size size v) th size (size + 1) src (kind rv) (size + 4))
+            (Z.of_nat (size + 1)) (Z.of_nat size)
   end.
 """
 ERR_NAMES = {1: "ConstructOverLive", 2: "ReadDead", 3: "AssignDead", 4: "DestroyDead", 5: "OutOfBlock"}
 
 
 class Case:
-    __slots__ = ("name", "params", "k", "pre", "post", "threw", "newsize", "errs", "live", "msg", "text")
+    __slots__ = ("name", "params", "k", "pre", "post", "threw", "newsize", "errs", "live", "msg", "text", "pre_text", "post_text")
 
     def base(self):
         return (self.name,) + tuple(self.params[p] for p in CASES[self.name][0])
@@ -162,7 +223,18 @@ class Case:
 
 
 def canonical(c_title, post, threw, newsize, errs):
-    return "%s | post=%s | threw=%d | newsize=%s | errs=%s" % (c_title, ",".join(post) if post else "-", threw, newsize, errs)
+    if not isinstance(post, str):
+        post = ",".join(post) if post else "-"
+    return "%s | post=%s | threw=%d | newsize=%s | errs=%s" % (c_title, post, threw, newsize, errs)
+
+
+def segments(text):
+    """composite state `a,b/c/...` -> list of token lists (`-` = empty segment)"""
+    return [[] if seg == "-" else seg.split(",") for seg in text.split("/")]
+
+
+def is_alive(tok):
+    return tok.startswith("L") or tok.rstrip("!") == "M"
 
 
 def parse_driver(out):
@@ -185,8 +257,16 @@ def parse_driver(out):
         c.name = m.group(1)
         c.params = dict((kv.split("=")[0], int(kv.split("=")[1])) for kv in m.group(2).split())
         c.k = None if m.group(3) == "-" else int(m.group(3))
-        c.pre = [] if m.group(4) == "-" else m.group(4).split(",")
-        c.post = [] if m.group(5) == "-" else m.group(5).split(",")
+        c.pre_text, c.post_text = m.group(4), m.group(5)
+        if c.name in COMPOSITE:      # flattened tokens; the segments are taken from the text
+            c.pre = [t for seg in segments(c.pre_text) for t in seg]
+            c.post = [t for seg in segments(c.post_text) for t in seg]
+            if len(segments(c.pre_text)) != COMPOSITE[c.name] or len(segments(c.post_text)) != COMPOSITE[c.name]:
+                problems.append("wrong number of segments: %s" % raw[:200])
+                continue
+        else:
+            c.pre = [] if m.group(4) == "-" else m.group(4).split(",")
+            c.post = [] if m.group(5) == "-" else m.group(5).split(",")
         c.threw = int(m.group(6))
         c.newsize = m.group(7)
         c.errs = int(m.group(8))
@@ -222,6 +302,18 @@ def expected_bases(max_size, max_extra):
                 if extra >= 1:
                     for src in range(size):
                         out.add(("insert_own", size, cap, pos, src))
+                    out.add(("insert_n_th", size, cap, pos))
+                    if n > 0:
+                        out.add(("shift_left", size, cap, pos))
+                    for src in list(range(size)) + [cap + 2]:
+                        for rv in (0, 1):
+                            out.add(("emplace_n_th", size, cap, pos, src, rv))
+            if extra == 0:
+                for src in list(range(size)) + [size + 2]:
+                    for rv in (0, 1):
+                        for pos in range(size + 1):
+                            out.add(("emplace_grow_th", size, pos, src, rv))
+                        out.add(("emplace_back_grow_th", size, src, rv))
             for first in range(size + 1):
                 for last in range(first, size + 1):
                     out.add(("erase", size, cap, first, last))
@@ -233,10 +325,21 @@ def expected_bases(max_size, max_extra):
 
 
 def expected_pre(c):
+    """-> token list (plain families) or the composite text"""
     p = c.params
-    size, cap = p["size"], p["cap"]
+    size = p["size"]
+    cap = p.get("cap", size)
+    prefix = ["L%d" % (FIRST_VALUE + i) if i < size else "R" for i in range(cap)]
+    if c.name in COMPOSITE:
+        arg = "L%d" % (FIRST_VALUE + p["src"] if p["src"] < size else NEW_VALUE)
+        segs = [",".join(prefix) if prefix else "-", arg, "R"] + (["-"] if COMPOSITE[c.name] == 4 else [])
+        return "/".join(segs)
+    if c.name == "shift_left":      # what shift_right(pos, size - pos) leaves: moved-from slot at pos, the suffix one slot further
+        pos = p["pos"]
+        return ["L%d" % (FIRST_VALUE + i) if i < pos else "M" if i == pos else "L%d" % (FIRST_VALUE + i - 1) if i <= size else "R"
+                for i in range(cap)]
     if c.name != "fill_after_shift":
-        return ["L%d" % (FIRST_VALUE + i) if i < size else "R" for i in range(cap)]
+        return prefix
     pos, count = p["pos"], p["count"]
     n = size - pos
     out = []
@@ -260,12 +363,26 @@ def harness_checks(cases, max_size, max_extra):
     seen = {}
     for c in cases:
         seen.setdefault(c.base(), []).append(c)
-        if c.pre != expected_pre(c):
-            problems.append("%s: initial state %s, expected %s" % (c.title(), ",".join(c.pre), ",".join(expected_pre(c))))
+        want_pre = expected_pre(c)
+        if (c.pre_text if isinstance(want_pre, str) else c.pre) != want_pre:
+            problems.append("%s: initial state %s, expected %s" % (c.title(), c.pre_text, want_pre if isinstance(want_pre, str) else ",".join(want_pre)))
         if c.errs:
             anomalies.append("%s: %d lifetime errors recorded by the ledger (%s)" % (c.title(), c.errs, c.msg))
+        elif c.msg:
+            problems.append("%s: %s" % (c.title(), c.msg))
         if any(s.endswith("!") for s in c.post):
             anomalies.append("%s: a non relocatable object was moved bitwise: %s" % (c.title(), ",".join(c.post)))
+        if c.name in COMPOSITE:
+            # X<n> in the e segment: n live objects outside the block(s) and the external object (a leaked temporary);
+            # X elsewhere: an element of a freed block still alive / a block allocated and not released
+            if any(t.startswith("X") for t in c.post):
+                anomalies.append("%s: leak: %s" % (c.title(), c.post_text))
+            segs = segments(c.post_text)
+            blocks = segs[0] + (segs[3] if len(segs) == 4 else [])
+            shown = len([t for t in blocks if is_alive(t)]) + sum(int(t[1:] or 1) for t in segs[2] if t.startswith("X"))
+            if c.live != shown:
+                anomalies.append("%s: %d live objects but %d accounted for in %s" % (c.title(), c.live, shown, c.post_text))
+            continue
         shown = len([s for s in c.post if s != "R"])
         if c.live != shown:
             anomalies.append("%s: %d live objects but %d live slots (object alive outside the buffer, or lost)" % (c.title(), c.live, shown))
@@ -335,15 +452,28 @@ def slot_text(z):
     return {-1: "R", -2: "M", -3: "Out"}.get(z, "L%d" % z)
 
 
+def composite_text(c, slots):
+    """the model's slots [block or old block..., argument, e, new block...] as the driver's composite text"""
+    n = c.params["cap"] if c.name == "emplace_n_th" else c.params["size"]
+    toks = [{-3: "O"}.get(z, slot_text(z)) for z in slots]
+    segs = [",".join(toks[:n]) if n else "-", toks[n], toks[n + 1]]
+    if COMPOSITE[c.name] == 4:
+        new = toks[n + 2:]
+        segs.append("-" if all(t == "O" for t in new) else ",".join(new))     # no new block exists: every slot is Out
+    return "/".join(segs)
+
+
 def model_line(c, zs):
     err, ns, threw, slots = zs[0], zs[1], zs[2], zs[3:]
     if err:
         return "%s | lifetime error %s in the model" % (c.title(), ERR_NAMES.get(err, str(err)))
-    return canonical(c.title(), [slot_text(z) for z in slots], threw, "-" if ns < 0 else str(ns), "0")
+    post = composite_text(c, slots) if c.name in COMPOSITE else [slot_text(z) for z in slots]
+    return canonical(c.title(), post, threw, "-" if ns < 0 else str(ns), "0")
 
 
 def impl_line(c):
-    return canonical(c.title(), c.post, c.threw, c.newsize if c.name in HAS_NEWSIZE else "-", str(c.errs))
+    return canonical(c.title(), c.post_text if c.name in COMPOSITE else c.post, c.threw, c.newsize if c.name in HAS_NEWSIZE else "-",
+                     str(c.errs))
 
 
 # ------------------------------------------------------------------------------------------------------------------
@@ -353,7 +483,8 @@ def run(tier="quick"):
     res = {"tier": tier, "cases_compared": 0, "differences": 0, "first_differences": [], "model_functions": [],
            "harness_problems": [], "implementation_anomalies": [], "per_case": {},
            "space": "size 0..%d, capacity size + 0..%d, every position, count 0..%d, every first <= last, every source index, "
-                    "every throw index; element type El<0> (not trivially relocatable)" % (max_size, max_extra, max_extra)}
+                    "every throw index; emplace_n / growing emplace / emplace_back: argument = external object or every own element, as an "
+                    "lvalue and as an rvalue; element type El<0> (not trivially relocatable)" % (max_size, max_extra, max_extra)}
 
     def done():
         res["wall_time_s"] = round(time.time() - t_start, 1)
@@ -421,7 +552,7 @@ def main(argv):
     print("  space: " + r["space"])
     for name in sorted(r["per_case"]):
         pc = r["per_case"][name]
-        print("  %-17s vs %-22s %5d compared %4d differences" % (name, pc["model"], pc["compared"], pc["differences"]))
+        print("  %-20s vs %-29s %5d compared %4d differences" % (name, pc["model"], pc["compared"], pc["differences"]))
     print("  model definitions exercised (%d): %s" % (len(r["model_functions"]), ", ".join(r["model_functions"])))
     for dd in r["first_differences"]:
         print("  DIFFERENCE %s  [%s]\n    implementation: %s\n    model:          %s" % (dd["case"], dd["model_definition"], dd["implementation"], dd["model"]))
